@@ -1526,4 +1526,19 @@ theorem parseAll_accepted (lim : Limits) (reqs : List (Bool × List (Bytes × By
     exact ⟨validate_wf lim q.1 q.2.1 q.2.2.1 (h q hq).1, (h q hq).2⟩)
   simpa [List.flatMap_map, List.map_map, Function.comp_def] using this
 
+/-- storage exhaustion is a pure additional rejection -/
+theorem validateS_ok {lim : Limits} {cap : Nat} {es : Bool} {hl : List (Bytes × Bytes)} {r : Req}
+    (h : validateRequestS lim cap es hl = .ok r) : validateRequest lim es hl = .ok r := by
+  unfold validateRequestS at h
+  split at h
+  · cases h
+  · exact h
+
+theorem handleTrailerS_ok {lim : Limits} {cap used : Nat} {es : Bool} {hl t : List (Bytes × Bytes)}
+    (h : handleTrailerS lim cap used es hl = .ok t) : handleTrailer lim es hl = .ok t := by
+  unfold handleTrailerS at h
+  split at h
+  · cases h
+  · exact h
+
 end Sozu.Headers
